@@ -5,6 +5,7 @@ use crate::common::{machinery_error, Tier};
 pub mod c06;
 pub mod c07;
 pub mod c11;
+pub mod c12;
 pub mod c19;
 pub mod c20;
 pub mod grammar;
@@ -23,6 +24,8 @@ pub fn run(id: &str, tier: Tier) -> i32 {
         "C06" => c06::run(tier),
         "C07" => c07::run(tier),
         "C11" => c11::run(tier),
+        "C12" => c12::run(tier),
+        "C12-part" => c12::run_part(tier),
         "C19" => c19::run(tier),
         "C20" => c20::run(tier),
         "C08" => loopprops::run_c08(tier),
@@ -36,6 +39,7 @@ pub fn replay(id: &str, case: &Value) -> i32 {
         "C06" => c06::replay(case),
         "C07" => c07::replay(case),
         "C11" => c11::replay(case),
+        "C12" => c12::replay(case),
         "C19" => c19::replay(case),
         "C20" => c20::replay(case),
         "C02" | "C03" | "C09" | "C10" => proto::replay(id, case),
